@@ -10,12 +10,16 @@ mod engine;
 mod gen;
 mod model;
 mod oracle;
+mod sandbox;
 mod spec;
 
 use std::path::PathBuf;
 use std::time::Instant;
 
 use engine::{Findings, RunCfg, Tier};
+
+#[global_allocator]
+static GLOBAL: sandbox::Tracking = sandbox::Tracking;
 
 fn usage() -> ! {
     eprintln!("usage: rbxverif check <Cxx> [--tier quick|thorough] [--seed N] [--replay FILE] [--strict]");
@@ -113,6 +117,7 @@ fn main() {
             std::process::exit(code);
         }
         "dbstats" => checks::dbstats(),
+        "worker" => sandbox::worker_main(),
         _ => usage(),
     }
 }
